@@ -9,7 +9,7 @@ import (
 
 func init() {
 	register(&Property{ID: "C19", Run: runC19,
-		Explain: "Trace faithfulness decided as tables, sibling agreement and pairing: (R19.1) every pubsubTracer method that builds a TraceEvent sets Type to the enum constant matching its own name and sets exactly the payload field of the same name (table derived from the source on every run), stamps the local peer ID, reaches tracer.Trace on every path with a tracer attached, fills Join/Leave/Graft/Prune/stream payloads from its own parameters, and forwards to the same-named method of every raw tracer (loops without early exit); (R19.2) every implementation of PubSubRouter in the module traces Join as Join and Leave as Leave (never the opposite), and outbound-stream events under their own names; gossipsub traces JOIN only on the not-yet-joined edge and LEAVE only on the joined edge, and (shared R05.1/R05.2) the routers' Join/Leave are called exactly when the first local interest appears / the last one goes away (alternation); (R19.3) every mesh insert is paired with tracer.Graft and every mesh delete with tracer.Prune for the same peer and topic, the one exception being OnClosedOutboundStream, which is paired with the closed-stream event; (R19.4) at every rpcQueue push the error edge reaches DropRPC (and never SendRPC) and the success edge reaches SendRPC (and never DropRPC), with the pushed RPC as operand; (R19.5) DELIVER_MESSAGE is emitted only by publishMessage(+Batch), once per message on every path, and PUBLISH_MESSAGE only and always by ValidateLocal; (R19.6) the file/remote tracer buffer and closed flag are accessed under their mutex. (R19.3 converse) a PRUNE event is emitted only for a peer that was a mesh member. NOT decided: lossy remote tracer, file encodings, ordering between events of different goroutines.",
+		Explain: "Trace faithfulness decided as tables, sibling agreement and pairing: (R19.1) every pubsubTracer method that builds a TraceEvent sets Type to the enum constant matching its own name and sets exactly the payload field of the same name (table derived from the source on every run), stamps the local peer ID, reaches tracer.Trace on every path with a tracer attached, fills Join/Leave/Graft/Prune/stream payloads from its own parameters, and forwards to the same-named method of every raw tracer (loops without early exit); (R19.2) every implementation of PubSubRouter in the module traces Join as Join and Leave as Leave (never the opposite), and outbound-stream events under their own names; gossipsub traces JOIN only on the not-yet-joined edge and LEAVE only on the joined edge, and (shared R05.1/R05.2) the routers' Join/Leave are called exactly when the first local interest appears / the last one goes away (alternation); (R19.3) every mesh insert is paired with tracer.Graft and every mesh delete with tracer.Prune for the same peer and topic, the one exception being OnClosedOutboundStream, which is paired with the closed-stream event; (R19.4) at every rpcQueue push the error edge reaches DropRPC (and never SendRPC) and the success edge reaches SendRPC (and never DropRPC), with the pushed RPC as operand; (R19.5) DELIVER_MESSAGE is emitted only by publishMessage(+Batch), once per message on every path, and PUBLISH_MESSAGE only and always by ValidateLocal; (R19.6) the file/remote tracer buffer and closed flag are accessed under their mutex. (R19.3 converse) a PRUNE event is emitted only for a peer that was a mesh member. The R07.4 row 'Join drops the fanout entry it turns into the mesh' is re-evaluated here (an aliased map is edited without trace events); R19.1 recognises a constructor helper that takes the event type as a parameter. NOT decided: lossy remote tracer, file encodings, ordering between events of different goroutines.",
 		Assume:  []string{"generated enum names follow protoc-gen-gogo conventions (UPPER_SNAKE of the message name)"},
 		Mutants: []Mutant{
 			{Name: "randomsub-leave-traces-join", File: "randomsub.go", Old: "func (rs *RandomSubRouter) Leave(topic string) {\n\trs.tracer.Leave(topic)", New: "func (rs *RandomSubRouter) Leave(topic string) {\n\trs.tracer.Join(topic)", Expect: "R19.2"},
@@ -49,8 +49,54 @@ func runC19(c *RuleCtx) {
 	p := c.P
 	// ---------- R19.1 table
 	nEvt := 0
+	// generic constructors: a helper that builds the common part of an event and takes the event type as a parameter
+	// (`t.newEvent(pb.TraceEvent_GRAFT)`) is not an event method itself; its callers are, with the constant they pass
+	type ctorInfo struct {
+		typIdx int
+		pidOK  bool
+	}
+	ctors := map[string]ctorInfo{}
+	for _, f := range p.All {
+		if f.Parent != nil || f.Obj == nil || !strings.HasPrefix(f.Name, "(*pubsubTracer).") || f.Body == nil {
+			continue
+		}
+		inspectNoLit(f.Body, func(n ast.Node) bool {
+			cl, ok := n.(*ast.CompositeLit)
+			if !ok {
+				return true
+			}
+			if t := f.Info().TypeOf(cl); t == nil || typeString(t, modPath) != "pb.TraceEvent" {
+				return true
+			}
+			info := ctorInfo{typIdx: -1}
+			for _, el := range cl.Elts {
+				kv, ok := el.(*ast.KeyValueExpr)
+				if !ok {
+					continue
+				}
+				switch kv.Key.(*ast.Ident).Name {
+				case "Type":
+					v := p.R(f).Val(kv.Value)
+					for i := 0; paramObj(f, i) != nil; i++ {
+						if v.Has(isParam(f, i)) {
+							info.typIdx = i
+						}
+					}
+				case "PeerID":
+					info.pidOK = stripConv(p.R(f).Val(kv.Value)).IsField("pubsubTracer.pid")
+				}
+			}
+			if info.typIdx >= 0 {
+				ctors[f.Name] = info
+			}
+			return true
+		})
+	}
 	for _, f := range p.All {
 		if f.Parent != nil || f.Obj == nil || !strings.HasPrefix(f.Name, "(*pubsubTracer).") {
+			continue
+		}
+		if _, isCtor := ctors[f.Name]; isCtor {
 			continue
 		}
 		meth := f.Obj.Name()
@@ -75,13 +121,46 @@ func runC19(c *RuleCtx) {
 				}
 			}
 		}
+		var ctorCall *ast.CallExpr
+		var ctor ctorInfo
 		if lit == nil {
-			continue
+			for _, cs := range p.FuncCalls(f, false) {
+				if ci, ok := ctors[cs.Name]; ok {
+					ctorCall, ctor = cs.Call, ci
+				}
+			}
+			if ctorCall == nil {
+				continue
+			}
 		}
 		nEvt++
 		typ, payload := "", []string{}
 		var payloadLit *ast.CompositeLit
 		pidOK := false
+		var site ast.Node
+		if lit != nil {
+			site = lit
+		} else {
+			site = ctorCall
+			// call args: receiver is not in Args; typIdx counts declared parameters
+			if ctor.typIdx < len(ctorCall.Args) {
+				typ = strings.TrimPrefix(p.R(f).Val(ctorCall.Args[ctor.typIdx]).Name, "pb.TraceEvent_")
+			}
+			pidOK = ctor.pidOK
+			lit = &ast.CompositeLit{}
+		}
+		// payload fields assigned after construction (evt.Graft = &pb.TraceEvent_Graft{...})
+		for _, st := range p.AllStores() {
+			if st.Fn.Root() == f && strings.HasPrefix(st.Field, "pb.TraceEvent.") && st.Kind == "assign" {
+				k := strings.TrimPrefix(st.Field, "pb.TraceEvent.")
+				if k != "Type" && k != "PeerID" && k != "Timestamp" {
+					payload = append(payload, k)
+					if st.RHS != nil {
+						payloadLit = compositeOf(st.RHS)
+					}
+				}
+			}
+		}
 		for _, el := range lit.Elts {
 			kv, ok := el.(*ast.KeyValueExpr)
 			if !ok {
@@ -102,9 +181,9 @@ func runC19(c *RuleCtx) {
 				payloadLit = compositeOf(kv.Value)
 			}
 		}
-		c.Check(typ == upperSnake(meth), "R19.1", f.Name, "event type matches the method", lit, "Type="+typ, "method "+meth+" emits an event of type "+typ+" (expected "+upperSnake(meth)+")")
-		c.Check(len(payload) == 1 && payload[0] == meth, "R19.1", f.Name, "payload field matches the method", lit, strings.Join(payload, ","), "method "+meth+" fills payload field(s) "+strings.Join(payload, ",")+" (expected "+meth+")")
-		c.Check(pidOK, "R19.1", f.Name, "event stamped with the local peer ID", lit, "PeerID=t.pid", "the event's PeerID is not the local peer")
+		c.Check(typ == upperSnake(meth), "R19.1", f.Name, "event type matches the method", site, "Type="+typ, "method "+meth+" emits an event of type "+typ+" (expected "+upperSnake(meth)+")")
+		c.Check(len(payload) == 1 && payload[0] == meth, "R19.1", f.Name, "payload field matches the method", site, strings.Join(payload, ","), "method "+meth+" fills payload field(s) "+strings.Join(payload, ",")+" (expected "+meth+")")
+		c.Check(pidOK, "R19.1", f.Name, "event stamped with the local peer ID", site, "PeerID=t.pid", "the event's PeerID is not the local peer")
 		// Trace reached whenever a tracer is attached
 		g := p.Graph(f)
 		var recvObj types.Object
@@ -114,10 +193,11 @@ func runC19(c *RuleCtx) {
 		tNil := AtomNil("t == nil", func(v *V) bool { return v.Kind == "var" && recvObj != nil && v.Obj == recvObj })
 		trNil := AtomNil("t.tracer == nil", isFieldOf("pubsubTracer.tracer"))
 		ok, _ := g.MustPass(g.Entry(), PassOpts{Cut: g.CutAny(AtomWant{tNil, true}, AtomWant{trNil, true})}, p.callPred(f, "EventTracer.Trace"))
-		c.Check(ok, "R19.1", f.Name, "event handed to the tracer on every path", lit, "every path with a tracer attached calls Trace", "a path with a tracer attached returns without tracing the event")
+		c.Check(ok, "R19.1", f.Name, "event handed to the tracer on every path", site, "every path with a tracer attached calls Trace", "a path with a tracer attached returns without tracing the event")
 		for _, cs := range p.Sites(f, false, "EventTracer.Trace") {
 			v := p.R(f).Val(cs.Call.Args[0])
-			c.Check(v.Kind == "comp" && v.Name == "pb.TraceEvent", "R19.1", f.Name, "traces the event it built", cs.Call, "evt", "traces "+v.String())
+			_, fromCtor := ctors[v.Name]
+			c.Check((v.Kind == "comp" && v.Name == "pb.TraceEvent") || (v.Kind == "call" && fromCtor), "R19.1", f.Name, "traces the event it built", cs.Call, "evt", "traces "+v.String())
 		}
 		// payload operands for the state-rebuilding events
 		if payloadLit != nil && inSet(meth, "Join", "Leave", "Graft", "Prune", "OnNewOutboundStream", "OnClosedOutboundStream", "SendRPC", "DropRPC") {
@@ -364,7 +444,7 @@ func runC19(c *RuleCtx) {
 		}
 		if f := c.MustFn("R19.5", fnPublishBatch); f != nil {
 			found := false
-			for _, r := range p.RangesOver(f, func(v *V) bool { return v.IsField("messageBatchAndPublishOptions.messages") }) {
+			for _, r := range p.LoopsOver(f, func(v *V) bool { return v.IsField("messageBatchAndPublishOptions.messages") }) {
 				if ok, _ := p.LoopBodyMust(f, r, nil, p.callPred(f, fnNotifySubs)); !ok {
 					continue
 				}
